@@ -18,6 +18,13 @@ class NotInterpretable(Exception):
     pass
 
 
+class UnknownName(NotInterpretable):
+    """A step refers to a column by a name that none of its inputs has."""
+    def __init__(self, msg, name):
+        super().__init__(msg)
+        self.name = name
+
+
 class Rel:
     def __init__(self, name, descs):
         self.name = name
@@ -79,6 +86,8 @@ class Interp:
                 # the qualifier names nothing in this dataframe: an executor working on a dataframe can still find the column
                 # by its name when that is unique (this is also what makes a wrongly wired plan observable instead of skipped)
                 hits = [(rel, i) for rel, i, d in cands if d[2] == col]
+            if not hits:
+                raise UnknownName(f'identifier {".".join(parts)} resolves to 0 columns', col)
             if len(hits) != 1:
                 raise NotInterpretable(f'identifier {".".join(parts)} resolves to {len(hits)} columns')
             rel, i = hits[0]
